@@ -7,6 +7,7 @@ import (
 	"flag"
 	"fmt"
 	"os"
+	"runtime"
 	"sync/atomic"
 	"time"
 
@@ -95,6 +96,19 @@ func cmdWorker(args []string) int {
 		b, _ := json.Marshal(res)
 		os.WriteFile(*out, b, 0644)
 	}
+	// a runaway world (texts doubling in a loop) must not take the machine down: give up on the
+	// batch ("cannot decide", exit 4) long before the kernel's OOM killer would
+	go func() {
+		var ms runtime.MemStats
+		for {
+			time.Sleep(2 * time.Second)
+			runtime.ReadMemStats(&ms)
+			if ms.HeapAlloc > 6<<30 {
+				fmt.Fprintf(os.Stderr, "worker %s from=%d: heap %d MB while executing run seed %d - giving up on this batch\n", *prop, *from, ms.HeapAlloc>>20, current.Seed)
+				os.Exit(4)
+			}
+		}
+	}()
 	startWatchdog(time.Duration(*budget)*time.Second, func() {
 		c := current
 		c.Prop, c.Oracle, c.Fingerprint, c.Msg = "C05", "no-hang", "C05.hang", fmt.Sprintf("an engine call did not return within %ds of real time", *budget)
